@@ -589,7 +589,7 @@ func c16TagPath(n gedcom.Node, p []string) []interface{} {
 
 func c16N(tier string) int {
 	if tier == "thorough" {
-		return 3000 // x40 queries
+		return 8000 // x40 queries
 	}
 	return 250
 }
@@ -598,10 +598,11 @@ func c16OpCases() int { return len(c16Pool) }
 
 func init() {
 	fw.Register(&fw.Prop{
-		ID:    "C16",
-		Title: "Query results equal what the Go API gives",
-		Cases: func(tier string, seed uint64) int { return c16OpCases() + c16N(tier) },
-		Run:   c16Run,
+		ID:      "C16",
+		CaseCPU: 60,
+		Title:   "Query results equal what the Go API gives",
+		Cases:   func(tier string, seed uint64) int { return c16OpCases() + c16N(tier) },
+		Run:     c16Run,
 		Rule: "(1) exhaustive operand pairs: every ordered pair from a pool of 59 numeric/text/mixed/grey-zone values under all six operators, evaluated as a real query; reference = numeric comparison iff both operands are plain decimals, case-insensitive trimmed text comparison iff an operand is not a float at all, otherwise only the laws (!= negates =, exactly one of < = >, <= and >= are the unions). " +
 			"(2) typed generator: well-typed pipelines of up to 4 stages over a hand-written table of ~50 accessors on Document/Individual/Family/Name/Sex/Date/Husband/Wife/Child/Node, First/Last with n in 0..4 and 1000, Length, Only with scalar conditions, Combine, NodesWithTagPath, objects, each with a Go closure computing the expected value through the API; compared JSON-normalised on documents of 0, 1, 3 and ~20 people. " +
 			"(3) metamorphic laws without reference: variable inlining, Combine(E,E)|Length = 2x, Only(p)/Only(not p) partition in order, First(n)++Last(len-n) = E, First(n)|Length = min(n,len), determinism (re-evaluation, fresh engine, fresh decode). non-trivial = query evaluated to a non-empty value; distinct by query text + document",
